@@ -53,6 +53,7 @@ def run_case(machine, case, keep_records=False):
         try:
             machine.execute(case, world, res, log)
         except Violation as v:
+            res.derived_case = v.extra.pop("derived_case", None)
             res.violation = v.to_json()
         except Discard as d:
             res.discard = d.reason
